@@ -155,6 +155,48 @@ def makeMerchantId (name : List Char) : List Char :=
 def idSafe (name : List Char) : Bool :=
   name.all fun c => c ≠ '\'' && c ≠ '"' && c ≠ '_'
 
+/-! ## unique merchant ids (the repaired allocation of `write_summary_file_vue`, D12c)
+
+```
+merchant_ids = {}
+def make_merchant_id(name):
+    if name not in merchant_ids:
+        base = <makeMerchantId name>
+        candidate, n = base, 1
+        while candidate in merchant_ids.values():
+            n += 1
+            candidate = f"{base}_{n}"
+        merchant_ids[name] = candidate
+    return merchant_ids[name]
+```
+The table is an association list in insertion order. The `while` loop is a structural recursion on fuel;
+`|merchant_ids|` iterations always suffice (`firstFree_not_mem`), so the fuel never runs out. -/
+
+/-- the n-th candidate: `base` for n ≤ 1, `f"{base}_{n}"` (decimal, no padding) from 2 on -/
+def idCandidate (base : List Char) (n : Nat) : List Char :=
+  if n ≤ 1 then base else base ++ '_' :: Nat.toDigits 10 n
+
+/-- the `while candidate in merchant_ids.values()` loop, standing at candidate number `n` -/
+def firstFree (used : List (List Char)) (base : List Char) : Nat → Nat → List Char
+  | 0, n => idCandidate base n
+  | fuel + 1, n =>
+    if idCandidate base n ∈ used then firstFree used base fuel (n + 1) else idCandidate base n
+
+abbrev IdTable := List (List Char × List Char)
+
+/-- one call `make_merchant_id(name)`: memoised on the NAME; a new name gets the first candidate that no other
+name owns, whether that owner got it as its natural id or as a generated `_n` one -/
+def allocOne (tbl : IdTable) (name : List Char) : IdTable :=
+  if name ∈ tbl.map (·.1) then tbl
+  else tbl ++ [(name, firstFree (tbl.map (·.2)) (makeMerchantId name) tbl.length 1)]
+
+/-- the table after `make_merchant_id` has been called on `names` in that order (repeats allowed) -/
+def allocIds (names : List (List Char)) : IdTable := names.foldl allocOne []
+
+/-- `merchant_ids[name]` -/
+def idOf (tbl : IdTable) (name : List Char) : Option (List Char) :=
+  (tbl.find? (·.1 == name)).map (·.2)
+
 /-! ## str.replace and the placeholder chain -/
 
 /-- `hay.replace(pat, rep)` for non-empty `pat`: leftmost non-overlapping matches, the replacement is
@@ -233,6 +275,11 @@ def analysedTotal (rows : List MRow) : Int := (rows.map (·.ytd)).sum
 def idsDistinct : List MRow → Bool
   | [] => true
   | r :: rest => rest.all (fun r' => r'.id ≠ r.id) && idsDistinct rest
+
+/-- the rows `build_category_view` works on when the ids come from the allocation table; `data name` = what
+`by_merchant[name]` holds (its `id` field is ignored) -/
+def rowsOf (names : List (List Char)) (data : List Char → MRow) : List MRow :=
+  (allocIds names).map fun p => { data p.1 with id := p.2 }
 
 /-! ## the figures: transaction-level flow (analyze_transactions) vs export_json's merchant-level summary -/
 
